@@ -7,7 +7,13 @@
 (*   "pass1"   RemoveAnyNeverTransformer rewrites the stub                                      *)
 (*   "pass2"   RemoveTrivialTypesTransformer rewrites the stub                                  *)
 (*   "apply"   ApplyTypeAnnotationsVisitor visits one slot per step                             *)
+(*   "post"    only with FilterMerged: the Any / Never filter visits the merged source           *)
 (*   "done"                                                                                     *)
+(* Existing annotations (slot.ex) range over Exs: "T" and the annotations the author wrote as a  *)
+(* bare Any / Never / typing.Any himself - on parameters, returns, `v: X = e`, the value-less     *)
+(* declaration `v: X` (module and class level) and an annotated local.  They are kept whatever    *)
+(* the stub says.  FilterMerged = TRUE is the design alternative "filter the result as well";    *)
+(* it must violate KeptInv (design witness, like the AsCoded ones).                              *)
 (* AsCoded = FALSE is the rule table the property asks for; AsCoded = TRUE models the code as   *)
 (* written (the variable branch of pass 1 never fires; tuple / chained targets of a class body  *)
 (* are declared at module level) and violates NoBareAnyNeverInv and NoStrayInv.                 *)
@@ -19,7 +25,10 @@ CONSTANTS MaxSlots, MaxParams, MaxVars,
           VCtx,        \* variable contexts to enumerate (besides "annotated")
           Rich2,       \* BOOLEAN: two-parameter functions also vary context/flavour
           AsCoded,
+          Exs,         \* existing annotations to enumerate (subset of ExAnns)
+          FilterMerged,\* BOOLEAN: design alternative, see PostFilter in MergePyiOps
           Mode         \* "check" | "tables" (export every table at the end of the build phase)
+                       \* | "both" (check, and export every table on the way)
 
 VARIABLES t, phase, fst, res, stray, k
 
@@ -34,15 +43,19 @@ NVars == Cardinality({x \in DOMAIN t.slots : t.slots[x].kind \in VarKinds})
 
 ParamOpts(ctxs) ==
   {[kind |-> "param", ctx |-> c, ex |-> e, st |-> s] :
-     c \in ctxs, e \in {"none", "T"}, s \in {"none", "T", "U", "Any"}}
+     c \in ctxs, e \in {"none"} \cup Exs, s \in {"none", "T", "U", "Any"}}
 RetOpts ==
   {[kind |-> "ret", ctx |-> "plain", ex |-> e, st |-> s] :
-     e \in {"none", "T"}, s \in {"none", "T", "U", "Any", "Never"}}
+     e \in {"none"} \cup Exs, s \in {"none", "T", "U", "Any", "Never"}}
+(* contexts without an annotation of the author's / with one ("annotated" is always enumerated) *)
+BareCtx == {"assign", "tuple", "multi", "reassign", "infunc"}
+AnnCtx(kd) == {"annotated"} \cup (VCtx \cap (IF kd = "clsvar" THEN {"decl"} ELSE {"decl", "localann"}))
 VarOpts(kd) ==
   {[kind |-> kd, ctx |-> c, ex |-> "none", st |-> s] :
-     c \in (IF kd = "clsvar" THEN VCtx \cap {"assign", "tuple", "multi"} ELSE VCtx),
+     c \in (IF kd = "clsvar" THEN VCtx \cap {"assign", "tuple", "multi"} ELSE VCtx \cap BareCtx),
      s \in {"none", "T", "Any", "Never", "triv", "Lit"}}
-  \cup {[kind |-> kd, ctx |-> "annotated", ex |-> "T", st |-> s] : s \in {"none", "T", "U", "Any"}}
+  \cup {[kind |-> kd, ctx |-> c, ex |-> e, st |-> s] :
+          c \in AnnCtx(kd), e \in Exs, s \in {"none", "T", "U", "Any", "Never"}}
 
 (* star and keyword-only parameters come after the positional ones; at most one star *)
 Rank(c) == CASE c = "plain" -> 1 [] c = "default" -> 2 [] c = "star" -> 3 [] OTHER -> 4
@@ -87,8 +100,13 @@ Apply ==
        THEN /\ res' = Append(res, ApplySlot(AsCoded, t, fst, k))
             /\ stray' = IF StraySlot(AsCoded, t, fst, k) THEN stray \cup {k} ELSE stray
             /\ k' = k + 1 /\ UNCHANGED phase
-       ELSE phase' = "done" /\ UNCHANGED <<res, stray, k>>
+       ELSE phase' = (IF FilterMerged THEN "post" ELSE "done") /\ UNCHANGED <<res, stray, k>>
   /\ UNCHANGED <<t, fst>>
+
+Post ==
+  /\ phase = "post"
+  /\ res' = PostFilter(t, res)
+  /\ phase' = "done" /\ UNCHANGED <<t, fst, stray, k>>
 
 (* the guards are repeated in front of the quantifiers so that TLC does not enumerate the *)
 (* function shapes in states where no function can be added                             *)
@@ -103,13 +121,16 @@ Build ==
 
 Next ==
   IF Mode = "tables" THEN Build \/ Freeze
-  ELSE Build \/ Freeze \/ Pass1 \/ Pass2 \/ Apply
+  ELSE Build \/ Freeze \/ Pass1 \/ Pass2 \/ Apply \/ Post
 
 Spec == Init /\ [][Next]_vars
 
 -----------------------------------------------------------------------------
 TypeOK ==
-  /\ phase \in {"build", "pass1", "pass2", "apply", "done"}
+  /\ phase \in {"build", "pass1", "pass2", "apply", "post", "done"}
+  /\ Exs \subseteq ExAnns
+  /\ \A x \in DOMAIN t.slots : t.slots[x].ex \in {"none"} \cup Exs
+  /\ \A x \in DOMAIN t.slots : t.slots[x].ctx \in {"annotated", "decl", "localann"} => t.slots[x].ex # "none"
   /\ Len(t.slots) <= MaxSlots
   /\ Len(res) <= Len(t.slots)
   /\ stray \subseteq DOMAIN t.slots
@@ -123,8 +144,12 @@ StepwiseEqualsRuleTable ==
 KeptInv == phase = "done" => Kept(t, res)
 FromStubInv == phase = "done" => FromStub(t, res)
 NoBareAnyNeverInv == phase = "done" => NoBareAnyNever(t, res)
+(* what the author wrote as Any / Never is still there, on returns and variables too (this is    *)
+(* Kept restricted to the slots where NoBareAnyNever would forbid an insertion)                  *)
+AuthorAnyNeverStaysInv ==
+  phase = "done" => \A x \in DOMAIN t.slots : t.slots[x].ex \in AnyNever => ResText(t, res, x) = t.slots[x].ex
 NoStrayInv == phase = "done" => NoStray(stray)
 AllOrNothingInv == phase = "done" => AllOrNothing(AsCoded, t, res)
 
-ExportInv == (Mode = "tables" /\ phase = "pass1") => PrintT(<<"CASE", ToJson(t)>>)
+ExportInv == (Mode \in {"tables", "both"} /\ phase = "pass1") => PrintT(<<"CASE", ToJson(t)>>)
 =============================================================================
